@@ -11,6 +11,9 @@ type propCfg struct {
 	// is reported as a VIOLATION (the report text is saved as the replay artefact); otherwise a
 	// report only makes the run inconclusive.
 	RaceIsViolation bool
+	// NoCrashRule: a dying test process is never counted as a violation (checks whose test process
+	// is expected to be killed by the cases themselves)
+	NoCrashRule bool
 	// Fuzz: native fuzz targets run after the generated search in the thorough tier
 	// (FuzzName -> sub-check whose oracle judges the input; the failing input becomes a replay case of it)
 	Fuzz            map[string]string
